@@ -487,9 +487,38 @@ func (s *backendSuite) do(t []string) string {
 	switch pos[0] {
 	case "create", "update", "delete":
 		s.setFaults(opts)
-		res := s.runOp(ctx, s.b, t)
+		if id := opts["txn"]; id != "" {
+			// txn=<id>: the request's (first) batch is committed through the engine transaction begun by `prebegin <id>`
+			s.c.mu.Lock()
+			s.c.useTxn = id
+			s.c.mu.Unlock()
+			defer func() {
+				s.c.mu.Lock()
+				s.c.useTxn = ""
+				s.c.mu.Unlock()
+			}()
+		}
+		var res string
+		if opts["abandon"] == "1" {
+			// abandon=1 (cfg rpcfault=abandon, TiKV): the client of this request goes away (its context is cancelled) once
+			// the PREWRITE of its transaction has reached the cluster; client-go rolls the transaction back, leaving a
+			// rollback record on its keys. The answer is what the backend told that client.
+			res = abandonRun(func(actx context.Context) string { return s.runOp(actx, s.b, t) })
+		} else {
+			res = s.runOp(ctx, s.b, t)
+		}
 		s.setFaults(nil) // a directive no commit of this request consumed does not leak into later ops
 		return res
+	case "prebegin":
+		// prebegin <id>: BeginBatchWrite on the engine NOW (on TiKV the transaction's start timestamp is taken here);
+		// used by a later request `… txn=<id>`
+		s.c.mu.Lock()
+		if s.c.pre == nil {
+			s.c.pre = map[string]storage.BatchWrite{}
+		}
+		s.c.pre[pos[1]] = s.inner.BeginBatchWrite()
+		s.c.mu.Unlock()
+		return "prebegin ok"
 	case "get", "list", "count", "compact", "parts", "stream", "streamadv":
 		s.setFaults(nil)
 		return s.runOp(ctx, s.b, t)
